@@ -51,6 +51,12 @@ def sweep_templates(ctx, rng, tier):
                 out.append((ed, [208004, d, 208000], "208early/%s" % kind))
         for y in (1, 2, 7, 8, 13, 24, 31):
             out.append((ed, [206000 + y, 63250, 12101], "206"))
+            # the boundaries of "local descriptor" (X 48..63 or Y 192..255): unknown descriptors just inside the definition,
+            # and a known numeric local descriptor whose table width differs from YYY
+            for ld in (24192, 24193, 24255, 48000, 48001, 47192, 63192):
+                out.append((ed, [1001, 206000 + y, ld, 1002], "206_local_boundary"))
+            if y != 9:
+                out.append((ed, [1001, 206000 + y, 12192, 1002], "206_known_local"))
         for y in (1, 2, 9, 40):
             out.append((ed, [205000 + y, 12101], "205"))
     return out
